@@ -1,4 +1,5 @@
 import GqlVerif.Props.C16
+import GqlVerif.Proofs.ComposedC16
 open GqlVerif.C16
 #print axioms id_int
 #print axioms id_str
@@ -10,3 +11,19 @@ open GqlVerif.C16
 #print axioms default_iff_nullable_id
 #print axioms absent_nullable_id_is_none
 #print axioms absent_id_without_default_rejected
+-- composed: what renderField attaches and what the serde model reads through it (Proofs/ComposedC16.lean)
+#print axioms GqlVerif.Composed.renderField_helper
+#print axioms GqlVerif.Composed.helper_iff_ID
+#print axioms GqlVerif.Composed.id_field_value
+#print axioms GqlVerif.Composed.id_field_composed
+#print axioms GqlVerif.Composed.id_field_int_required
+#print axioms GqlVerif.Composed.id_field_int_nullable
+#print axioms GqlVerif.Composed.id_field_int_list
+#print axioms GqlVerif.Composed.deNestedId_canon
+#print axioms GqlVerif.Composed.id_read_canonical
+#print axioms GqlVerif.Composed.non_id_field_plain
+#print axioms GqlVerif.Composed.calcFields_scalar_helper_iff
+#print axioms GqlVerif.Composed.calcFields_id_field
+#print axioms GqlVerif.Composed.id_struct_reads_int
+#print axioms GqlVerif.Composed.helper_on_renamed_scalar
+#print axioms GqlVerif.Composed.helper_on_struct_named_ID
